@@ -42,7 +42,12 @@ RULE = ("paired runs of the real drivers on small planted low-rank problems (ord
         "reported numbers (fit / objective / iteration counts; CP-ALS whole-run scaling at 1e-6): dense vs sparse "
         "(cp_als incl. random start, cp_apr mu/pdnr/pqnr, tucker_als; hosvd and gcp_opt+LBFGSB refuse sparse data: "
         "dense only, the refusal itself is checked), stored order of the sparse entries shuffled; printing intervals "
-        "{0,1,2,7} (hosvd verbosity {0,1,3,10}); same global seed twice (bitwise, except where ARPACK's own start "
+        "{0,1,2,3,7} (hosvd verbosity {0,1,2,3,7,10}; cp_apr also printinneritn), sampled on generic positive guesses and "
+        "ENUMERATED over driver (cp_als, cp_apr mu/pdnr/pqnr on dense and sparse data, tucker_als, hosvd, gcp_opt) x "
+        "guess pattern (positive; exact zeros in the first / a middle / the last factor in rows with non-empty data; "
+        "a zero column; entries below kappatol=1e-10) x interval on 3-way problems, rank >= 2, >= 3 outer iterations; "
+        "CP-APR MU's kappa fix-up observed on real runs (normalize / redistribute / calculate_phi recorded) against the "
+        "model op for the same guess patterns; same global seed twice (bitwise, except where ARPACK's own start "
         "vector enters: 1e-8) and different seeds (different starts), the drawn matrices against the stream model; "
         "scale factors {1e-9,1e-6,1e-3,0.5,3,1e3,1e6,1e9} (absolute thresholds only show far from 1) for cp_als "
         "(3..6 outer iterations, stoptol 0 / 1e-4 / 1e-3 on the scale-free fit, given and seeded random start, dense "
@@ -481,7 +486,8 @@ ITER_LINE = {"cp_als": " Iter ", "tucker_als": " Iter ", "cp_apr_mu": "\tIter "}
 class Print(Family):
     """printing intervals; the number of per-iteration lines against the loop model."""
     name = "print"
-    theorems = ("C18_print_independent", "C18_print_independent_pure", "C18_print_silent", "C18_print_apr_renormalise")
+    theorems = ("C18_print_independent", "C18_print_independent_pure", "C18_print_independent_mu", "C18_print_silent",
+                "C18_print_apr_renormalise", "C18_print_mu_fixup_id", "C18_print_mu_fixup_sees_scaling")
 
     def gen(self, rng, tier):
         out = []
@@ -514,6 +520,10 @@ class Print(Family):
                     k += 1
                     c["rep"] = "sparse" if (alg in ALGS_CP and k % 2 == 1) else "dense"
                     out.append(c)
+                    if alg.startswith("cp_apr"):  # both representations
+                        c2 = dict(c)
+                        c2["rep"] = "dense" if c["rep"] == "sparse" else "sparse"
+                        out.append(c2)
         return out
 
     def evaluate(self, cases):
@@ -912,7 +922,8 @@ def rec_data(X, rep):
 IFACE = {
     "cp_als": {"iface": {"ndims", "shape", "norm", "mttkrp", "innerprod", "nvecs", "__class__"}, "stored": set()},
     "tucker_als": {"iface": {"ndims", "shape", "norm", "ttm", "nvecs"}, "stored": set()},
-    "hosvd": {"iface": {"ndims", "__pow__", "__sub__", "copy"}, "stored": set()},
+    # hosvd / tucker_als validate the requested ranks against `shape` (metadata: Query.shape)
+    "hosvd": {"iface": {"ndims", "shape", "__pow__", "__sub__", "copy"}, "stored": set()},
     "cp_apr": {"iface": {"ndims", "shape", "norm", "innerprod", "__lt__", "__class__"},
                "stored": {"subs", "vals", "nnz", "order", "to_tenmat"}},
     "gcp": {"iface": {"ndims", "shape", "norm", "__class__", "copy"}, "stored": {"data", "__imul__"}},
@@ -1041,5 +1052,87 @@ class AprObserve(Family):
         return out
 
 
+class MuFixup(Family):
+    """CP-APR MU's kappa fix-up acts on the LIVE model: what `redistribute(n)` finds in factor n at outer
+    iteration it must be the model fix-up of what `normalize(mode=n)` left there one outer iteration earlier,
+    with the multiplier Phi[n] of that iteration — nothing (in particular no printing branch) may have touched
+    the factor in between.  Observed by wrapping ktensor.normalize / ktensor.redistribute and
+    pyttb.cp_apr.calculate_phi (restored in `finally`)."""
+    name = "mu_fixup"
+    theorems = ("C18_print_independent_mu", "C18_print_mu_fixup_id")
+    KAPPA, KAPPATOL = 0.01, 1e-10
+
+    def gen(self, rng, tier):
+        out = []
+        for _ in range(1 if tier == "quick" else 5):
+            for pat in GUESS_PATTERNS:
+                for rep in ("dense", "sparse"):
+                    for p in (0, 1, 2):
+                        c = base_case(rng, tier, "cp_apr_mu", n=rng.choice([2, 3]))
+                        c.update(guess=pat, rep=rep, printitn=p, maxiters=3, rate=1.0)
+                        out.append(c)
+        return out
+
+    def evaluate(self, cases):
+        import importlib
+        apr = importlib.import_module("pyttb.cp_apr")
+        out, reqs, slots = [], [], []
+        for c in cases:
+            X, init = make_problem(c)
+            N = len(c["shape"])
+            events, last_phi, after_norm = [], {}, {}
+            o_phi, o_norm, o_red = apr.calculate_phi, ttb.ktensor.normalize, ttb.ktensor.redistribute
+
+            def w_phi(Data, Model, rank, n, Pi, eps, _o=o_phi):
+                r = _o(Data, Model, rank, n, Pi, eps)
+                last_phi[int(n)] = np.array(r, copy=True)
+                return r
+
+            def w_norm(self, weight_factor=None, sort=False, normtype=2, mode=None, _o=o_norm):
+                r = _o(self, weight_factor, sort, normtype, mode)
+                for m in (range(self.ndims) if mode is None else [int(mode)]):
+                    after_norm[m] = np.array(self.factor_matrices[m], copy=True)
+                return r
+
+            def w_red(self, mode, _o=o_red):
+                m = int(mode)
+                events.append((m, np.array(self.factor_matrices[m], copy=True),
+                               None if m not in after_norm else after_norm[m].copy(),
+                               None if m not in last_phi else last_phi[m].copy()))
+                return _o(self, mode)
+            apr.calculate_phi, ttb.ktensor.normalize, ttb.ktensor.redistribute = w_phi, w_norm, w_red
+            try:
+                r = run_alg("cp_apr_mu", as_data(X, c["rep"]), c, init=init_for("cp_apr_mu", c, init), printitn=c["printitn"])
+            finally:
+                apr.calculate_phi, ttb.ktensor.normalize, ttb.ktensor.redistribute = o_phi, o_norm, o_red
+            tags = [c["rep"], "guess=" + c["guess"], f"p{c['printitn']}"]
+            if r.get("reject"):
+                out.append(Verdict("ok", "", brief(r), None, None, tags + ["reject"], False))
+                continue
+            k0 = len(reqs)
+            for e, (m, found, left, phi) in enumerate(events):
+                it = e // N
+                if left is None:
+                    continue
+                if phi is None:
+                    phi = np.zeros_like(left)
+                reqs.append({"op": "c18_mu_fixup", "it": it, "kappa": jval(self.KAPPA), "kappatol": jval(self.KAPPATOL),
+                             "Phi": jval(phi), "A": jval(left)})
+                slots.append((len(out), it, m, jval(found)))
+            out.append(Verdict("ok", "", {"events": len(events), "run": brief(r)}, None, None, tags, len(reqs) > k0))
+        acted = {}
+        for (k, it, m, found), mod in zip(slots, drive(reqs)):
+            if mod["violates"]:
+                acted[k] = acted.get(k, 0) + 1
+            if out[k].status == "ok" and not deep_eq(found, mod["A"]):
+                out[k] = Verdict("violation", f"cp_apr mu: at outer iteration {it} the live factor of mode {m} is not the "
+                                 "fix-up of what the previous outer iteration left there (something touched the model in between)",
+                                 {"found": found}, mod, None, out[k].tags)
+        for k, v in enumerate(out):
+            if v.status == "ok" and acted.get(k):
+                out[k] = Verdict("ok", "", v.impl, None, None, list(v.tags) + ["fixup-acted"], v.nontrivial)
+        return out
+
+
 def families():
-    return [Repr(), Print(), Seed(), Scale(), Relabel(), Iface(), AprObserve()]
+    return [Repr(), Print(), Seed(), Scale(), Relabel(), Iface(), AprObserve(), MuFixup()]
